@@ -6,7 +6,11 @@
 (* addresses; the loader picks a load bias for each (PIE executable: non   *)
 (* zero; non-PIE executable: 0, its lowest PT_LOAD vaddr is LB, standing   *)
 (* for 0x400000; libraries: any of LibBiases, chosen again at every        *)
-(* dlopen).  True run-time address of a location = link address + bias.    *)
+(* dlopen).  EVERY object has a link base (lowest PT_LOAD vaddr): 0 for    *)
+(* PIE and ordinary shared objects, LB for the non-PIE executable, and     *)
+(* cfg.lbase in LibBases for the library (a shared object may be linked at *)
+(* a non-zero base).  bias = mapping start - link base; true run-time      *)
+(* address of a location = link address + bias.                            *)
 (* The program is one of two straight-line puppets (Prog): lib linked at   *)
 (* start-up, or dlopen / call / dlclose / dlopen / call / dlclose.         *)
 (*                                                                         *)
@@ -25,7 +29,8 @@
 (*   deferred retry at r_brk   mod.rs:628-633, breakpoint.rs:453-478       *)
 (*   entry: enable_all         mod.rs:591-627, breakpoint.rs:1123-1140     *)
 (* Four rules select "as written" or a candidate repair:                   *)
-(*   OffsetRule    "first_mapping_start" | "bias"                          *)
+(*   OffsetRule    "first_mapping_start" | "main_only" (link base subtracted *)
+(*                 for the executable only) | "bias" (start - link base)   *)
 (*   ReloadRule    "forget" (a request satisfied once is never re-armed    *)
 (*                 after its library was unmapped) | "rearm"               *)
 (*   EarlyAddrRule "drop" (an address request made before start whose      *)
@@ -45,9 +50,12 @@ CONSTANTS
     LibModes,       \* subset of {"startup", "dlopen"}
     SessModes,      \* subset of {"launch", "attach_pre", "attach_mid"}
     LibBiases,      \* biases the loader may pick for lib (each load picks again)
+    LibBases,       \* link bases of lib: 0 (ordinary shared object) and/or LBlib = 60 (linked at a non-zero base)
     Kinds,          \* subset of {"fn", "line", "addr"}
     MaxReq,         \* number of breakpoint requests per session
     OffsetRule, ReloadRule, EarlyAddrRule, AttachRule,
+    ReqPlan,        \* "free": any request at any prompt | "anchor" (generation only): the first request is a line
+                    \* request on the executable (it creates the prompt), later ones go to the library or stage_reopened
     Emit            \* "none" | "scn": print every complete session with the reference's expectations
 
 NONE == -1
@@ -57,7 +65,6 @@ LB   == 40                  \* lowest PT_LOAD vaddr of the non-PIE executable
 ExeBias(em)  == IF em = "pie" THEN 100 ELSE 0
 LibcBias     == 500
 
-FirstVaddr(o, em) == IF o = "exe" /\ em = "nopie" THEN LB ELSE 0
 
 ExeFns == <<"stage_pre", "stage_mid", "stage_closed", "stage_reopened">>
 LibFns == <<"lib_add", "lib_inner">>
@@ -68,8 +75,6 @@ FnIdx(o, f) == CHOOSE i \in 1..Len(FnsOf(o)) : FnsOf(o)[i] = f
 \* a location: <<object, function, "fn" (where a function breakpoint lands) | "ln" (the marked body line)>>
 \* offset 1 of the executable is its entry point
 LinkOff(loc) == 2 * FnIdx(loc[1], loc[2]) + (IF loc[3] = "ln" THEN 1 ELSE 0)
-Link(loc, em) == FirstVaddr(loc[1], em) + LinkOff(loc)
-EntryLink(em) == FirstVaddr("exe", em) + 1
 
 (***************************************************************************)
 (* The puppets (puppets/c18/c18s.rs, c18d.rs + lib1.rs), statement by      *)
@@ -112,17 +117,23 @@ vars == <<cfg, bias, ip, phase, started, reqs, impl, flags, hist>>
 
 EM == cfg.exe
 
+\* link base (lowest PT_LOAD vaddr) of EVERY object: PIE executable 0, non-PIE executable LB; the library is an
+\* ordinary shared object linked at 0 or one linked at a non-zero base cfg.lbase (-Ttext-segment / prelink)
+FirstVaddr(o) == IF o = "exe" THEN (IF cfg.exe = "nopie" THEN LB ELSE 0) ELSE IF o = "lib" THEN cfg.lbase ELSE 0
+Link(loc) == FirstVaddr(loc[1]) + LinkOff(loc)
+EntryLink == FirstVaddr("exe") + 1
+
 \* -------------------------------------------------------------------------------------------
 \* ground truth helpers
 \* -------------------------------------------------------------------------------------------
 Mapped(b, o) == b[o] # NONE
-StartOf(b, o) == b[o] + FirstVaddr(o, EM)                     \* start of the first mapping of o
+StartOf(b, o) == b[o] + FirstVaddr(o)                     \* start of the first mapping of o
 InObj(b, o, a) == Mapped(b, o) /\ a >= StartOf(b, o) /\ a < StartOf(b, o) + Size
 IsMappedAddr(b, a) == \E o \in Objs : InObj(b, o, a)
 MappedObjs(b) == {o \in Objs : Mapped(b, o)}
 LocsOf(o) == {<<o, FnsOf(o)[i], v>> : i \in 1..Len(FnsOf(o)), v \in {"fn", "ln"}}
 AllLocs == UNION {LocsOf(o) : o \in Objs}
-TrueAddr(b, loc) == Link(loc, EM) + b[loc[1]]
+TrueAddr(b, loc) == Link(loc) + b[loc[1]]
 
 \* -------------------------------------------------------------------------------------------
 \* REFERENCE
@@ -142,7 +153,9 @@ RefViews(b) == {[rid |-> i, loc |-> Denoted(b, reqs[i])] : i \in {j \in 1..Len(r
 \* -------------------------------------------------------------------------------------------
 \* IMPLEMENTATION MODEL
 \* -------------------------------------------------------------------------------------------
-MOff(b, o) == IF OffsetRule = "first_mapping_start" THEN StartOf(b, o) ELSE b[o]
+MOff(b, o) == IF OffsetRule = "first_mapping_start" THEN StartOf(b, o)
+              ELSE IF OffsetRule = "main_only" THEN (IF o = "exe" THEN b[o] ELSE StartOf(b, o))
+              ELSE b[o]
 
 \* registry.rs update_mappings for the objects in fs (only those that have a mapping get an offset)
 Remap(I, b, fs) ==
@@ -155,12 +168,12 @@ FindRange(I, a) == {o \in I.files : I.rstart[o] # NONE /\ a >= I.rstart[o] /\ a 
 \* address where the implementation would put request r now (NONE: refused)
 PlaceFor(I, b, r) ==
     IF r.kind # "addr"
-    THEN (IF r.obj \in I.files /\ I.moff[r.obj] # NONE THEN Link(ReqLoc(r), EM) + I.moff[r.obj] ELSE NONE)
+    THEN (IF r.obj \in I.files /\ I.moff[r.obj] # NONE THEN Link(ReqLoc(r)) + I.moff[r.obj] ELSE NONE)
     ELSE LET os == FindRange(I, r.abs)
          IN IF os = {} THEN NONE
             ELSE LET o == CHOOSE x \in os : TRUE
                      g == r.abs - I.moff[o]
-                 IN IF g >= FirstVaddr(o, EM) /\ g < FirstVaddr(o, EM) + Size THEN g + I.moff[o] ELSE NONE
+                 IN IF g >= FirstVaddr(o) /\ g < FirstVaddr(o) + Size THEN g + I.moff[o] ELSE NONE
 
 \* add_and_enable: POKE the INT3 (EIO if the address is not mapped)
 CanSet(I, b, r) == PlaceFor(I, b, r) # NONE /\ IsMappedAddr(b, PlaceFor(I, b, r))
@@ -196,7 +209,7 @@ ImplRequest(I, b, i, r) ==
     THEN IF r.kind = "addr"
          THEN [I EXCEPT !.uninit = @ \cup {[rid |-> i, g |-> FALSE, a |-> r.abs, obj |-> "none"]}]
          ELSE IF r.obj \in I.files
-              THEN [I EXCEPT !.uninit = @ \cup {[rid |-> i, g |-> TRUE, a |-> Link(ReqLoc(r), EM), obj |-> r.obj]}]
+              THEN [I EXCEPT !.uninit = @ \cup {[rid |-> i, g |-> TRUE, a |-> Link(ReqLoc(r)), obj |-> r.obj]}]
               ELSE [I EXCEPT !.deferred = @ \cup {i}]
     ELSE IF CanSet(I, b, r) THEN Enable(I, i, PlaceFor(I, b, r), ObjAt(b, PlaceFor(I, b, r)))
          ELSE [I EXCEPT !.deferred = @ \cup {i}]
@@ -220,7 +233,7 @@ AtEntry(I, b) ==
     IN [I2 EXCEPT !.rbrk = TRUE]
 
 \* DebugeeStart: update_mappings(only_main) and the entry-point breakpoint (EIO => the session is lost)
-EntryBpOk(b) == IsMappedAddr(b, EntryLink(EM) + MOff(b, "exe"))
+EntryBpOk(b) == IsMappedAddr(b, EntryLink + MOff(b, "exe"))
 
 \* -------------------------------------------------------------------------------------------
 \* the session
@@ -231,7 +244,7 @@ NoBias == [o \in Objs |-> NONE]
 GateIdx(lm, g) == CHOOSE k \in 1..Len(Prog(lm)) : Prog(lm)[k].t = g
 
 Init ==
-    /\ cfg \in [exe : ExeModes, lib : LibModes, sess : SessModes]
+    /\ cfg \in [exe : ExeModes, lib : LibModes, sess : SessModes, lbase : LibBases]
     /\ reqs = <<>>
     /\ flags = {}
     /\ hist = <<>>
@@ -251,9 +264,8 @@ Init ==
                /\ ip = GateIdx(cfg.lib, IF mid THEN "gate_mid" ELSE "gate_pre") + 1
                /\ started = TRUE
                /\ impl = [I0 EXCEPT !.files = fs,
-                                    !.moff = [o \in Objs |-> IF o \in fs THEN (IF OffsetRule = "first_mapping_start"
-                                                   THEN b[o] + FirstVaddr(o, cfg.exe) ELSE b[o]) ELSE NONE],
-                                    !.rstart = [o \in Objs |-> IF o \in fs THEN b[o] + FirstVaddr(o, cfg.exe) ELSE NONE],
+                                    !.moff = [o \in Objs |-> IF o \in fs THEN MOff(b, o) ELSE NONE],
+                                    !.rstart = [o \in Objs |-> IF o \in fs THEN b[o] + FirstVaddr(o) ELSE NONE],
                                     !.rbrk = (AttachRule = "rbrk")]
 
 \* what the reference expects the user to see at a prompt
@@ -273,8 +285,10 @@ UserReq ==
     /\ Len(reqs) < MaxReq
     /\ \E k \in Kinds, t \in Targets : \E g \in Guesses(t[1]) :
          /\ (k # "addr") => g = CHOOSE x \in Guesses(t[1]) : TRUE
+         /\ (ReqPlan = "anchor") => IF Len(reqs) = 0 THEN k = "line" /\ t[1] = "exe"
+                                    ELSE t[1] = "lib" \/ t = <<"exe", "stage_reopened">>
          /\ LET r == [kind |-> k, obj |-> t[1], fn |-> t[2], m |-> Mapped(bias, t[1]),
-                      abs |-> IF k = "addr" THEN Link(<<t[1], t[2], "ln">>, EM) + g ELSE 0]
+                      abs |-> IF k = "addr" THEN Link(<<t[1], t[2], "ln">>) + g ELSE 0]
                 i == Len(reqs) + 1
             IN /\ reqs' = Append(reqs, r)
                /\ impl' = ImplRequest(impl, bias, i, r)
